@@ -245,3 +245,30 @@ pub proof fn lemma_partial_reads_printed_version(v: Version, tail: Seq<char>)
     let raw = PSpec { major: Some(dec_val(ma)), minor: Some(dec_val(mi)), patch: Some(dec_val(pa)), pre: classify_all(pre), build: classify_all(build) };
     assert(norm(raw) == raw);
 }
+// a printed comparator `<op><version>` is read back as (op, the full partial of that version)
+pub proof fn lemma_primitive_reads_printed(op: Operation, v: Version, tail: Seq<char>)
+    requires wf_version(v), stops_version(tail), op != Operation::Exact,
+    ensures g_primitive_ast(op_text(op) + (ver_text(v) + tail)) == Some(((op, full_pspec(v)), tail)),
+{
+    broadcast use ax_dec_text;
+    reveal_strlit(">"); reveal_strlit(">="); reveal_strlit("<"); reveal_strlit("<=");
+    let vt = ver_text(v) + tail;
+    let s = op_text(op) + vt;
+    lemma_partial_reads_printed_version(v, tail);
+    // the version text starts with a digit: neither `=` nor a blank follows the operator
+    lemma_ver_text_is_canonical(v);
+    let ma = dec_text(v.major as nat);
+    assert(vt[0] == ma[0]) by {
+        assert(ver_text(v) =~= ma + (ch1('.') + (dec_text(v.minor as nat) + (ch1('.') + (dec_text(v.patch as nat) + (pre_text(texts(v.pre_release@)) + build_text(texts(v.build@))))))));
+    }
+    assert(dg_char(vt[0]));
+    lemma_span_unique(vt, |c: char| ws_char(c), 0);
+    assert(skip_ws(vt) =~= vt);
+    match op {
+        Operation::GreaterThan => { assert(s =~= ch1('>') + vt); assert(s.skip(1) =~= vt); assert(!starts2(s, '>', '=')); },
+        Operation::GreaterThanEquals => { assert(s =~= ch2('>', '=') + vt); assert(s.skip(2) =~= vt); assert(starts2(s, '>', '=')); },
+        Operation::LessThan => { assert(s =~= ch1('<') + vt); assert(s.skip(1) =~= vt); assert(!starts2(s, '<', '=')); },
+        Operation::LessThanEquals => { assert(s =~= ch2('<', '=') + vt); assert(s.skip(2) =~= vt); assert(starts2(s, '<', '=')); },
+        Operation::Exact => {},
+    }
+}
